@@ -20,6 +20,7 @@ import (
 //	ev <lt> <hexname>                user event by gossip        → deliveries
 //	q <lt> <id>                      query by gossip             → deliveries
 //	pp <eventLTime> <join01> <lt:hexname;…>   push/pull (join01=1: a join with ignore-old) → deliveries
+//	cfgfull <N> <Q> <k>              like cfg on a snapshot file k bytes below the compaction size
 //	restart                          Shutdown + Create on the same snapshot → `clocks <event_time> <query_time>`
 
 func c14Node(dir string, n, q int) (*evNode, error) {
@@ -99,6 +100,35 @@ func c14Exec(ops []string) []string {
 				continue
 			}
 			outs = append(outs, "ok")
+		case len(f) == 4 && f[0] == "cfgfull":
+			// like cfg, but the snapshot file already exists and is <k> bytes below the size at which the
+			// snapshotter compacts (128 KiB): filled with lines the replay skips (old coordinate records and a
+			// comment), so that one of the next few recorded lines triggers a compaction
+			n, _ = strconv.Atoi(f[1])
+			q, _ = strconv.Atoi(f[2])
+			k, _ := strconv.Atoi(f[3])
+			if nd != nil {
+				nd.close()
+			}
+			size := 128*1024 - k
+			var sb strings.Builder
+			line := "coordinate: {\"Vec\":[0,0,0,0,0,0,0,0],\"Error\":1.5,\"Adjustment\":0,\"Height\":1e-05}\n"
+			for sb.Len()+len(line)+3 <= size {
+				sb.WriteString(line)
+			}
+			sb.WriteString("#" + strings.Repeat("p", size-sb.Len()-2) + "\n")
+			if k < 0 || k > 4096 || sb.Len() != size || os.WriteFile(dir+"/snap", []byte(sb.String()), 0644) != nil {
+				outs = append(outs, "bad-op")
+				nd = nil
+				continue
+			}
+			nd, err = c14Node(dir, n, q)
+			if err != nil {
+				outs = append(outs, "node-error")
+				nd = nil
+				continue
+			}
+			outs = append(outs, "ok")
 		case nd == nil:
 			outs = append(outs, "node-error")
 		case len(f) == 3 && f[0] == "ev":
@@ -158,6 +188,29 @@ func c14Gen(rng *rand.Rand, tier string) []Case {
 	// the excluded value of the theorem (cut-off wraps to 0), replayed on every run
 	out = append(out, Case{ID: "wrap", Ops: []string{"cfg 2 2", "ev 5 " + hexs("a"), "ev 18446744073709551615 " + hexs("b"), "restart", "ev 5 " + hexs("a")},
 		Nontrivial: true, Tags: []string{"boundary"}})
+	// a snapshot file just below the compaction size: one of the first recorded lines compacts the file; whatever
+	// line that is, the restart must still cut off everything delivered before it
+	for _, k := range []int{30, 50, 70, 100} {
+		for m := 1; m <= 6; m++ {
+			ops := []string{fmt.Sprintf("cfgfull 4 4 %d", k)}
+			for j := 0; j < m; j++ {
+				if j%3 == 2 {
+					ops = append(ops, fmt.Sprintf("q %d 1", 2+j))
+				} else {
+					ops = append(ops, fmt.Sprintf("ev %d %s", 2+j, hexs("a")))
+				}
+			}
+			ops = append(ops, "restart")
+			for j := m - 1; j >= 0 && j >= m-3; j-- {
+				if j%3 == 2 {
+					ops = append(ops, fmt.Sprintf("q %d 1", 2+j))
+				} else {
+					ops = append(ops, fmt.Sprintf("ev %d %s", 2+j, hexs("a")))
+				}
+			}
+			out = append(out, Case{ID: fmt.Sprintf("full%d-%d", k, m), Ops: ops, Nontrivial: true, Tags: []string{"compaction-at-record"}})
+		}
+	}
 	names := []string{"a", "b", "c"}
 	for i := 0; i < n; i++ {
 		N := []int{1, 2, 3, 4, 8, 64}[rng.Intn(6)]
@@ -220,7 +273,7 @@ func init() {
 	register(&Prop{
 		ID: "C14",
 		Rule: "a real socket-free Serf node with a snapshot file: user events and queries (gossip) and push/pull replays (with and without ignore-old join) before and after one or two restarts on the same snapshot, buffer sizes 1-64, " +
-			"times re-using earlier ones, window edges and fresh ones; non-trivial = a push/pull replay carries times after a restart; distinct = distinct op sequence",
+			"times re-using earlier ones, window edges and fresh ones; 24 lives on a snapshot file 30-100 bytes below the compaction size, so that the 1st-6th recorded clock line compacts the file, followed by a restart and redelivery of the last three items; non-trivial = a push/pull replay carries times after a restart; distinct = distinct op sequence",
 		Gen:  c14Gen,
 		Exec: c14Exec,
 	})
